@@ -182,5 +182,51 @@ def check(rep, tier, seed):
                     distinct=evals4, samples=[{"nbytes": 1, "skip": 5, "n": 6}])
 
 
-REGISTER = {"C20": dict(extra=[check], assumptions=[
+def check_try_read_in_blocks(rep, tier, seed):
+    """try_read_bitarray inside / at the end of / beyond a bounded block: by its documentation it leaves the block when that is
+    exhausted and goes on with the bits that really follow in the file, so it returns exactly the file's bits from the reader's
+    real position (the block start plus the bits really consumed, at most the block length), never a made-up 1, and tell() moves
+    by the number of bits returned."""
+    import io
+
+    from pyvc import frontend
+
+    frontend.ensure_repo_on_path()
+    from vc2_conformance.bitstream.io import BitstreamReader, to_bit_offset
+
+    evals = 0
+    nfail = 0
+    for data in (bytes([0xC3, 0x5A, 0x0F]), bytes([0x00, 0xFF, 0x81]), bytes([0x96])):
+        bits = _bits_of_bytes(data)
+        for skip in range(0, 9):
+            for L in range(-1, 9):
+                for used in range(0, max(L, 0) + 3):
+                    for want_n in (0, 1, 2, 5, 9):
+                        if skip > len(bits):
+                            continue
+                        r = BitstreamReader(io.BytesIO(data))
+                        try:
+                            r.read_nbits(skip)
+                            r.bounded_block_begin(L)
+                            for _ in range(used):
+                                r.read_bit()
+                        except (EOFError, ValueError):
+                            continue  # the scenario itself is not constructible (block past the end of file, negative length rejected)
+                        evals += 1
+                        real = skip + min(used, max(L, 0))
+                        got = list(r.try_read_bitarray(want_n))
+                        ref = bits[real: real + want_n]
+                        pos = to_bit_offset(*r.tell())
+                        if (got != ref or pos != real + len(got)) and nfail < 3:
+                            nfail += 1
+                            rep.violation("try-read-block-%d" % nfail, {
+                                "what": "try_read_bitarray in / after a bounded block does not return the bits that follow in the file (or tell() disagrees)",
+                                "inputs": {"file_hex": data.hex(), "skip_bits": skip, "block_length": L, "bits_read_in_block": used, "requested": want_n},
+                                "expected": {"bits": ref, "tell_bits": real + len(ref)}, "observed": {"bits": got, "tell_bits": pos}})
+    rep.add_bounded("try_read_bitarray in, at the end of and beyond bounded blocks", "exhaustive: 3 files, start offsets 0..8, block lengths -1..8, 0..len+2 bits consumed "
+                    "(exactly used up, over-read, zero length), 0/1/2/5/9 bits requested", evals, True, distinct=evals,
+                    samples=[{"file_hex": "c35a0f", "skip_bits": 3, "block_length": 4, "bits_read_in_block": 4, "requested": 5}])
+
+
+REGISTER = {"C20": dict(extra=[check, check_try_read_in_blocks], assumptions=[
     "BOUNDED (not proved): read_bitarray/read_bytes/try_read_bitarray/write_bitarray/write_bytes are checked exhaustively only up to the small scopes listed under bounded_checks"])}
